@@ -411,6 +411,17 @@ theorem eig_scale {m : Type} [Fintype m] (Z : Matrix m m 𝕜) (v : m → 𝕜) 
 theorem core_scale (U : Matrix m r 𝕜) (Y : Matrix m n 𝕜) (c : 𝕜) : Uᵀ * (c • Y) = c • (Uᵀ * Y) := by
   rw [Matrix.mul_smul]
 
+/-- `cp_als` skips the solve when the coefficient matrix is entirely zero (`(Y == 0).all()`); for the
+scaled data that matrix is `c²` times the original one, so the guard takes the same branch. -/
+theorem als_zero_guard_scale {r : Type} {𝕜 : Type} [Field 𝕜] (Y : Matrix r r 𝕜) (c : 𝕜) (hc : c ≠ 0) :
+    (c * c) • Y = 0 ↔ Y = 0 := by
+  constructor
+  · intro h
+    rcases smul_eq_zero.mp h with h0 | h0
+    · exact absurd h0 (mul_ne_zero hc hc)
+    · exact h0
+  · intro h; rw [h, smul_zero]
+
 end matrix
 
 /-! ## relabelling the modes -/
